@@ -31,9 +31,39 @@ type c02Model struct {
 	lastAttached *c02Row   // most recent attached non-separator row whose handle the caller holds
 	nextID       int
 	log          []string
+	copyMode     bool
+	copies       int
 }
 
 func (m *c02Model) id() int { m.nextID++; return m.nextID }
+
+// cell returns the cell a Row.Add operation hands over, and the id of the item it holds.  Normally a fresh
+// NewCell of a fresh id; in copy mode every third one is a by-value copy of a cell that already sits in an
+// attached row (taken through CellAt or Cells()): a Cell is a value, and a copy of a placed cell is as good an
+// argument to Row.Add as a new one.
+func (m *c02Model) cell() (tabular.Cell, int) {
+	id := m.id()
+	if m.copyMode && id%3 == 0 {
+		for ri, r := range m.rows {
+			if r.sep || len(r.cells) == 0 {
+				continue
+			}
+			k := id % len(r.cells)
+			if id%2 == 0 {
+				if p, err := m.t.CellAt(tabular.CellLocation{Row: ri + 1, Column: k + 1}); err == nil {
+					m.log = append(m.log, fmt.Sprintf("  (the cell added next is a by-value copy of *CellAt(%d,%d))", ri+1, k+1))
+					m.copies++
+					return *p, r.cells[k]
+				}
+			} else if all := m.t.AllRows(); ri < len(all) && k < len(all[ri].Cells()) {
+				m.log = append(m.log, fmt.Sprintf("  (the cell added next is a by-value copy of AllRows()[%d].Cells()[%d])", ri, k))
+				m.copies++
+				return all[ri].Cells()[k], r.cells[k]
+			}
+		}
+	}
+	return tabular.NewCell(id), id
+}
 
 func (m *c02Model) ids(k int) ([]int, []interface{}) {
 	a := make([]int, k)
@@ -118,8 +148,8 @@ func (m *c02Model) apply(o c02Op) {
 		if m.lastAttached == nil {
 			return
 		}
-		id := m.id()
-		m.lastAttached.handle.Add(tabular.NewCell(id))
+		cell, id := m.cell()
+		m.lastAttached.handle.Add(cell)
 		m.lastAttached.cells = append(m.lastAttached.cells, id)
 	case c02NewRowHold, c02NewSizedHold:
 		var h *tabular.Row
@@ -132,8 +162,8 @@ func (m *c02Model) apply(o c02Op) {
 		}
 		r := &c02Row{cells: []int{}, handle: h}
 		for i := 0; i < o.k; i++ {
-			id := m.id()
-			h.Add(tabular.NewCell(id))
+			cell, id := m.cell()
+			h.Add(cell)
 			r.cells = append(r.cells, id)
 		}
 		m.held = append(m.held, r)
@@ -142,8 +172,8 @@ func (m *c02Model) apply(o c02Op) {
 			return
 		}
 		r := m.held[o.k%len(m.held)]
-		id := m.id()
-		r.handle.Add(tabular.NewCell(id))
+		cell, id := m.cell()
+		r.handle.Add(cell)
 		r.cells = append(r.cells, id)
 	case c02AttachHeld:
 		if len(m.held) == 0 {
@@ -167,8 +197,8 @@ func (m *c02Model) apply(o c02Op) {
 			return
 		}
 		r := cand[o.k%len(cand)]
-		id := m.id()
-		r.handle.Add(tabular.NewCell(id))
+		cell, id := m.cell()
+		r.handle.Add(cell)
 		r.cells = append(r.cells, id)
 	}
 }
@@ -326,8 +356,11 @@ func (m *c02Model) check(c *Ctx) (string, string) {
 	return "", ""
 }
 
-func c02Run(c *Ctx, ops []c02Op, sample bool) {
-	m := &c02Model{t: tabular.New()}
+func c02Run(c *Ctx, ops []c02Op, sample bool) { c02RunMode(c, ops, sample, false) }
+
+func c02RunMode(c *Ctx, ops []c02Op, sample, copyMode bool) {
+	m := &c02Model{t: tabular.New(), copyMode: copyMode}
+	defer func() { c.Rec.Count("cells_added_that_were_by-value_copies_of_placed_cells", int64(m.copies)) }()
 	desc := map[string]interface{}{}
 	c.Case = desc
 	if k, msg := m.check(c); k != "" {
@@ -435,7 +468,7 @@ func init() {
 						}
 					}
 					c.Rec.Eval(gen.Hash64("rnd", fmt.Sprint(ops)), n >= 2)
-					c02Run(c, ops, true)
+					c02RunMode(c, ops, true, i%2 == 1)
 				}},
 		},
 	})
